@@ -108,3 +108,201 @@ claim("C17",
       "arm for half/quarter bridges. Trusted: Coq kernel, Reals axioms, the Interval tactic's reflection (checked at Qed).",
       "Coq Reals proofs (field/nra/IVT) + per-sample interval goals tying model and implementation",
       "DESIGN.md section 7, C17")
+claim("C12",
+      "Theorems (Props/C12.v) about the integer model of the timestamp code with repair D5 applied (Model/Timestamp.v; "
+      "closed under the global context): ts_roundtrip - for every microsecond count v in int64 relative to the TDMS epoch, "
+      "decoding the (seconds, fractions) produced by the encoder returns v and the fields fit the 'q'/'Q' formats; "
+      "ts_roundtrip_datetime64 - the same through the 16 bytes written, on the scalar and on the array read path, with "
+      "the one intermediate NumPy forms inside int64; raw_bytes_roundtrip(_rev) and raw_array_roundtrip - fields -> 16 "
+      "bytes -> fields and bytes -> fields -> bytes are identities in both byte orders (LE: fractions u64, seconds i64; "
+      "BE: seconds, fractions); conv_within_unit - for s/ms/us/ns, exact - 1 < conv <= exact + m*2^12/2^64 (stated in "
+      "integers; truncation after adding 2^-52 s, so strictly within one unit); conv_monotone in the lexicographic order "
+      "of (seconds, fractions); scalar_eq_array - the Python-int path and the uint64 hi/lo-split array path (every "
+      "wrap-around written as mod 2^64) agree for all fractions; dec_tolerates_truncation - a stored fraction up to 2^12 "
+      "units below the exact value still reads as intended (files written by truncating float encoders). "
+      "roundtrip_refuted / frac_roundtrip_refuted: the bit-exact PrimFloat model of the UNCHANGED code loses "
+      "2020-01-01T00:00:16.000001 (defect D5). time_track over the reals: length n, i-th point offset + i*increment, "
+      "spacing, n = 0 and n = 1, absolute form = start + trunc(relative*unit) within one unit (standard Reals axioms). "
+      "Tie: every input also goes through the model inside Coq and must give the implementation's integers exactly - "
+      "10^5 stratified (quick) / all 10^6 (thorough) microsecond values x seconds incl. pre-1904, +-2^31, +-2^33, "
+      "year 9999, > 2^59 us and both ends of the datetime64[us] range, on TimeStamp.read and from_bytes; (s, f) pairs "
+      "with f within 2 of every k*2^64/10^r boundary and of the tolerance-shifted boundary, 0, 2^64-1; raw 16-byte "
+      "records in both byte orders. Direct oracles on the implementation: identity round trip, |conv - exact| < 1 with "
+      "exact Python integers, monotone, scalar == array == big-endian array, dtype, byte layouts, TdmsWriter -> TdmsFile "
+      "(eager, lazy, raw_timestamps) -> defragment for properties and channel data, time_track on lengths 0, 1, 2, n.",
+      "Requires dev/patches/D5.patch: on the unchanged tree the check reports VIOLATION key us-roundtrip with the datetime "
+      "as replay and states that Model.Timestamp.AsIs predicts it. The repaired decoder truncates after adding 2^-52 s "
+      "because the unedited test-suite (and every file written so far) stores floor-encoded fractions that an exact "
+      "floor would read one microsecond early. NumPy datetime64/timedelta64 and uint64 arithmetic are modelled (Z, "
+      "mod 2^64), struct by Base/Bytes.v. time_track: the float linspace is not bounded by theorem; it is compared with "
+      "offset + i*increment within 8 ulp of the largest magnitude and the absolute form exactly. 'ps' resolution keeps "
+      "the float path and is not claimed. Case files carry integers as primitive-int literals (Model.Timestamp.zi).",
+      "Coq proof (lia with euclidean division; hi/lo split identity) + exhaustive/stratified model-implementation "
+      "correspondence evaluated in Coq + direct oracles; PrimFloat refutation of the unchanged code",
+      "DESIGN.md section 7, C12; section 9 D5")
+claim("C05",
+      "Theorems (Props/C05.v, closed under the global context) about an executable state machine of ONE open file "
+      "(Model/IoPlan.v: OS file position, per-channel one-chunk cache with bounds, lazily built offset index, "
+      "suspended frames of channel.data_chunks()/TdmsFile.data_chunks() generators; every read happens at the "
+      "current position): for every well-formed file and EVERY finite single-threaded history of channel[i], "
+      "read_data(o,l), slices, generator creation and next() on any number of live generators, the reader with "
+      "the re-seek of dev/patches/D4.patch keeps the invariant (cached chunk = file's chunk at its bounds, index "
+      "entries = fresh ones, every live frame = the frame of a fresh generator after as many next() calls and "
+      "position independent) and each output equals the output on a freshly opened file (history_independent); "
+      "a fresh generator yields exactly the file's chunk list with running offsets (fresh_generator_chunks), so a "
+      "generator driven to exhaustion in any history delivers its full chunk list (generators_complete). The code "
+      "as it is in /repo today is refuted with the D4 witness (history_refuted, by vm_compute). Tie: random "
+      "files x random histories (quick 1000, thorough 20000) run on one TdmsFile.open; every output compared "
+      "with a freshly opened file (direct oracle, failing histories shrunk) and with the model's run evaluated "
+      "inside Coq, together with the position of the harness-supplied stream after every operation (wherever "
+      "the model's position lies in raw data).",
+      "Partial/trusted: single-threaded only; the OS file position is one integer and a read returns the block "
+      "laid out at that position; values are labels (decoding is C01's subject); the result of a window read is "
+      "its specification (chunk arithmetic of windows is C04's), only its effect on the shared state is modelled; "
+      "while defect D3 is unfixed, window outputs spanning a segment without the channel are compared with the "
+      "fresh file only (counted in the evidence). The check reports a VIOLATION (key d4-file-chunks-position) on "
+      "a tree without D4.patch.",
+      "Coq proof (invariant + simulation against the chunk-list specification) + differential histories vs fresh "
+      "file and vs the model inside Coq",
+      "DESIGN.md section 7, C05; section 9, D4")
+claim("C13",
+      "Theorems (Props/C13.v; only PrimFloat/Uint63 primitives in Print Assumptions) about executable models of "
+      "nptdms/scaling.py (Model/ScaleGraph.v: property lookup get_scaling/_get_channel_scaling/"
+      "_get_number_of_scalings with the PREFIX regex, and the evaluator mirroring _compute_scaled_data over typed "
+      "arrays - bool, the 8 integer types with explicit wrap-around, float32 via round-to-binary32, float64 in "
+      "PrimFloat; Linear as two rounded operations, Horner exactly as numpy polyval, np.interp's C formula, Add, "
+      "Subtract = right - left): eval_is_dataflow (for every well-formed graph the evaluator returns v iff the "
+      "inductive dataflow relation `flows` derives v on the last scale; the relation is functional), elementwise / "
+      "channel_elementwise (for EVERY graph, scaling a window of the channel = window of the scaled channel, values "
+      "and errors alike), lookup_order (channel, else group, else file, later levels not even evaluated), "
+      "scaled_status_unscaled + no_scaling_in_scope_is_raw, and scale_pure over a heap model with array identity "
+      "(Model/ArrayHeap.v: astype with copy flag, copy(), op=, out=; every scale method incl. Strain/Thermistor/RTD/"
+      "Thermocouple transcribed statement by statement): for every dtype of the input - float64 included - and "
+      "arbitrary semantics of the NumPy operations, no buffer that existed before the call changes; the in-place "
+      "variant is rejected and shown to overwrite a float64 input. Tie: generated channels (quick 420, thorough "
+      "20000: depth 1-5, arbitrary wiring, every numeric raw type + DAQmx scalers, definitions on channel/group/root "
+      "with decoys, with/without NI_Number_Of_Scales, prefix-only keys, out-of-range sources, non-monotonic tables) "
+      "read eagerly and lazily: independent pure-Python dataflow oracle bit-exact, lazy == eager, three kinds of "
+      "windows == window of the full read, raw_data bytes unchanged and not aliased; the same property "
+      "dictionaries and raw values evaluated by the model inside Coq and compared bit-exactly (float.hex), and the "
+      "aliasing of every scale() call on every dtype compared with the heap model.",
+      "Partial/trusted: the model mirrors the code AFTER fix D8 (Linear casts to double first); on a tree without "
+      "dev/patches/D8.patch float32/complex64 channels with a Linear scale are reported (keys value-float32-linear "
+      "...). Complex arrays have no numeric Coq model (Python oracle with NumPy's complex arithmetic only); sensor "
+      "scales are in the graph but evaluate to an error here (numerics: C17/C18). np.interp/polyval are modelled, "
+      "not verified - bit-exact on this NumPy build (a <= 2 ulp fallback for Table is counted in the evidence, 0 "
+      "used). Scale parameters are double properties, sources/counts integer properties, names ASCII. NaN payloads "
+      "not compared. Cyclic definitions are outside wf_graph (RecursionError in the code). 'lazy == eager' is "
+      "checked on the implementation only (no reader model here). uniform-length hypothesis of elementwise: all "
+      "arrays of one channel have the channel's length.",
+      "Coq proof (fuel induction vs inductive relation; map/zip commutation with windows; static alias analysis "
+      "proved sound over a heap) + bit-exact model/implementation correspondence evaluated in Coq + direct oracles",
+      "DESIGN.md section 7, C13; section 9, D8")
+claim("C14",
+      "Theorems (Props/C14.v) over NumPy promotion tables reflected from the installed NumPy on every run "
+      "(harness/gen/gen_promote.py -> Gen/NumpyPromote.v: np.result_type on all pairs of the 13 numeric dtypes, and "
+      "the result dtype of every primitive the scalings use, fail-closed): dtype_agrees - for every TDMS raw type "
+      "(13 numeric dtypes, string, timestamp with and without raw_timestamps, DAQmx with any scaler types) and EVERY "
+      "scale graph over every scale type, whenever the scalings return an array its dtype is what TdmsChannel.dtype "
+      "computes (Model/ScaleDtype.v mirrors dtype/_raw_data_dtype/get_dtype/_compute_scale_dtype and, separately, "
+      "the dtype the arithmetic yields); dtype_agrees_numeric / _daqmx without any exclusion; eval_has_actual_dtype "
+      "(the C13 evaluator's result has exactly that dtype); reads_have_channel_dtype and empty_results_same_dtype "
+      "(every branch of data/read_data/_read_slice/ChannelDataChunk._data); timestamp_dtype, string_dtype. The "
+      "unchanged code is refuted by vm_compute with the witnesses of D8, D9 and of two further defects found by "
+      "this check (raw_timestamps dtype; None dtype for pass-through scales on strings/timestamps); a third one "
+      "(lazily streamed string chunks are Python lists) is found by the harness only. Tie: exhaustive "
+      "files - every raw type x {no scaling, each scale type, all depth-2 structural graphs with all wirings, sensor "
+      "scales around Linear/AdvancedAPI, zero-length/one-value/untyped channels}, every DAQmx scaler type and every "
+      "ordered pair under Add/Subtract (quick 2625 files; thorough adds all depth-3 graphs) - each read eagerly and "
+      "lazily with ~40 read operations (slices incl. empty, windows, data, iteration, data_chunks, "
+      "file.data_chunks): every returned array has channel.dtype modulo byte order, empty == non-empty dtype, full "
+      "reads have len(channel) values; observed channel.dtype and read dtype compared with the model inside Coq.",
+      "Partial/trusted: the theorems are about the code AFTER dev/patches D8, D9, C14_raw_timestamps_dtype, "
+      "C14_nonnumeric_passthrough_dtype, C14_string_chunks_object_array (without them the check reports "
+      "dtype-float32-linear, dtype-int32-linear+advancedapi[0], dtype-timestamp-raw-unscaled, "
+      "dtype-string-advancedapi, dtype-string-unscaled ...). dtype_agrees excludes timedelta64 results: "
+      "datetime64 - datetime64 under a Subtract scale is the recorded finding dtype-nonnumeric-arith-scale; other "
+      "arithmetic on non-numeric data is outside the model (counted: 83 files). Equality is modulo byte order "
+      "(and field order of the timestamp struct). 'len(full read) == len(channel)' is checked on the "
+      "implementation only (reader accounting is C01/C06). The tables are those of this NumPy (2.x, NEP 50).",
+      "Coq proof (finite case analysis on reflected tables x induction on the graph) + exhaustive "
+      "model/implementation correspondence + direct oracle on every read operation",
+      "DESIGN.md section 7, C14; section 9, D8, D9")
+claim("C18",
+      "Theorems (Props/C18.v) about Gen/ThermoTables.v, regenerated from nptdms/thermocouples.py by a fail-closed "
+      "ast translator on every run (tables of the eight types, the comparisons of Range.within_range and the "
+      "condition of the type-K exponential term; every number emitted twice from one float.hex() text, as PrimFloat "
+      "literal and as hex real literal): (a) tables_are_nist - every forward coefficient, interior boundary and "
+      "exponential constant is bit-identical to the vendored NIST ITS-90 table (data/nist_its90.json), by "
+      "computation; (b) coverage / conversions_never_default - the eight objects construct, and for EVERY binary64 "
+      "x that is not NaN (infinities included) exactly one forward and one inverse piece select x, so np.piecewise "
+      "never takes its NaN default (generic lemma on complete contiguous tables from FloatAxioms ltb/leb/eqb specs); "
+      "(c) over R, as 351 lemma instances generated from the tables, 168 of them closed by `interval` (bisection + "
+      "Taylor models): forward_closed_forms, forward_boundary_gaps (adjacent pieces differ <= 1e-6 mV at every boundary, "
+      "type K with its exponential), forward_increasing (d/dt > 0, hence strictly increasing by the mean value "
+      "theorem, on every piece within the NIST range; type B from 22 degC), inverse_accuracy (for every NIST "
+      "validity range, every true temperature t and whichever pieces the code's comparisons select: "
+      "lo <= inverse(forward(t)) - t <= hi, bounds = NIST-stated error widened by one unit of its last digit), "
+      "scaling_roundtrip (the same through ThermocoupleScaling in microvolts). Tie: Model/ThermoF.v (PrimFloat "
+      "Horner as numpy polyval, np.piecewise selection) compared BIT-EXACTLY inside Coq with "
+      "Thermocouple.celsius_to_mv / mv_to_celsius and ThermocoupleScaling.scale on grid points plus every piece "
+      "boundary with its np.nextafter neighbours, +-0, denormals, infinities, all types, both directions; the type-K "
+      "exponential and microvolt forward path by per-sample interval-checked goals |R model - implementation| <= "
+      "1e-9 mV; constructors and piecewise order on small random tables. Direct oracle on the implementation: no "
+      "NaN in/around the range, forward = vendored NIST function within 1e-9 mV (quick 2000 / thorough 10^5 grid "
+      "points per type and direction), inverse within the NIST bounds of the true temperature, continuity, "
+      "monotone per piece, scaling direction/units also through a TDMS file.",
+      "Partial/trusted: the real-number theorems are about the exact real function of the code's binary64 "
+      "coefficients; rounding of polyval/exp is not bounded by a theorem (measured deviation from the NIST "
+      "evaluation: 0). Global strict monotonicity across boundaries is false of the standard's own coefficients "
+      "(B 630.615, R 1664.5, S 1064.18/1664.5 degC step down by 1e-11..2e-9 mV), so it is stated per piece plus the "
+      "gap bound. The inverse bounds are NIST's stated error ranges widened by one unit of the last digit (the "
+      "published figures are rounded; B, J, K, N, R exceed them slightly); data/nist_inverse_spec.json is a "
+      "transcription cross-checked by dense sweep (no second source: thermocouples_reference has no inverse "
+      "tables). That the PrimFloat and the real literal of a number denote the same value rests on the translator. "
+      "Print Assumptions: float/int63 primitives and FloatAxioms specs (coverage; Interval computes with primitive "
+      "floats), Reals axioms, Classical_Prop.classic, functional_extensionality_dep (Coquelicot/Interval). "
+      "Infinite or astronomically large inputs evaluate to NaN/inf through x*0 and overflow: outside 'in range'.",
+      "Coq proof (interval arithmetic with Taylor models on generated instances, float-comparison lemmas, "
+      "computation) + translator on every run + bit-exact and interval-checked correspondence + dense oracle",
+      "DESIGN.md section 7, C18; sections 3a, 4, 8")
+claim("C20",
+      "Proof (partial) + measured agreement: theorems about the executable ownership model Model/Resource.v, which "
+      "mirrors TdmsReader.__init__/close/read_metadata(finally)/_ensure_open, TdmsFile.__init__(finally)/close/"
+      "__exit__ and the channel read paths, TdmsWriter.open/close/write_segment/__enter__/__exit__ and defragment "
+      "statement by statement (Props/C20.v, all closed under the global context): for every kind of source (path, "
+      "stream, index path, index stream, stream without tag) x index file beside or not x parse outcome at every stage "
+      "x failing open(), after TdmsFile.read / read_metadata returns or raises no handle opened by the library is "
+      "open; after close() / __exit__ at any point of any operation history nothing owned is open, close does not "
+      "raise, and it stays so (induction over the operation list); a caller-supplied stream is never closed by any "
+      "history, returning or raising (close is modelled generically - the theorem, not the type, protects the "
+      "caller's stream); once closed every read that is not answered from memory (eager arrays, the cached chunk, an "
+      "in-flight generator over the caller's own open stream) ends in an error, never in data; close is idempotent; "
+      "the writer's with-block (after any earlier history; left normally, by an exception in the block, or with "
+      "__enter__ raising) leaves nothing open, nothing to the finaliser, no caller stream closed, and does not swallow "
+      "the exception; defragment likewise for source and destination. The model has a switch for defect D19: for the "
+      "code as it is the statements carry the side condition 'no open() fails after another succeeded / TdmsFile.open "
+      "does not raise' and the unconditioned statements are refuted by witnesses (*_refuted); for the patched code "
+      "(dev/patches/D19_C20_unclosed_on_failure.patch) they hold unconditionally. Tie: fault sequences (21 kinds of "
+      "malformed file incl. bad tag, truncated lead-in/metadata, unknown type, dimension != 1, matches-previous for an "
+      "unseen object, first segment without metadata, type change, mismatching index, index with bad tag / truncated, "
+      "data-stage failures) x 7 kinds of source x index beside x {read, open, read_metadata} x follow-up histories "
+      "(with-block, close, double close, every read API after close, generators started before close), constructor "
+      "failure points (missing file, EMFILE on the second open), writer with-blocks / close / write histories with "
+      "open faults, defragment; each run under /proc/self/fd accounting (sampled after every call, for raising calls "
+      "inside the except block while the exception is alive), .closed of caller streams (BytesIO and real files), "
+      "ResourceWarning accounting and a final drop-everything sample; the direct oracle is evaluated on the "
+      "observations and the model's trace (outcome class + handle snapshot per call + finaliser work) computed "
+      "inside Coq must equal the observed one on every case (quick 1 402, thorough 26 002 scenarios).",
+      "Partial by construction: descriptor lifetime is runtime behaviour (CPython reference counting, the OS); the "
+      "proof is about the ownership model and the tie is measured agreement, not a theorem about the code. Parse "
+      "outcomes are inputs of the model (harness fault table, itself validated by the agreement). The tree must "
+      "agree with one variant of the D19 switch (unpatched / patched) on all cases of a run. Trusted: Coq kernel + "
+      "vm_compute, /proc/self/fd, the warnings machinery, RLIMIT_NOFILE fault injection. Observation outside the "
+      "property text: TdmsWriter.close() called twice on a path target raises AttributeError (modelled, theorem "
+      "writer_second_close_raises_on_path). Finding D19 on the unchanged tree: TdmsFile.open(path) that raises, "
+      "TdmsReader.__init__ and TdmsWriter.open whose second open() fails leave the data file's descriptor to the "
+      "garbage collector (violation keys unclosed-on-failure:*).",
+      "Coq proof on a finite ownership model (computation per operation, induction over histories) + fd-accounting "
+      "oracle + in-Coq trace correspondence",
+      "DESIGN.md section 7, C20; sections 4, 8")
